@@ -13,7 +13,7 @@ and for decoding text into XSD atomic data values.
 """
 from collections.abc import Iterator
 from decimal import Decimal
-from typing import Optional, Union
+from typing import Any, Optional, Union
 
 from elementpath import aliases
 from elementpath.aliases import AnyNsmapType
@@ -106,9 +106,22 @@ def iter_atomic_values(xsd_type: XsdTypeProtocol) -> Iterator[aliases.AtomicType
             for member_type in root_type.member_types:
                 yield from _iter_values(member_type, depth + 1)
 
+    def _builtin_ancestor(type_: Any) -> Any:
+        # The nearest built-in type from which the type is derived by restriction
+        # (for a list the one of its items), if the XSD processor exposes base types.
+        if type_.is_simple() and type_.is_list():
+            type_ = getattr(type_, 'item_type', None)
+        for _ in range(16):
+            if type_ is None or type_.name in atomic_values:
+                return type_
+            type_ = getattr(type_, 'base_type', None)
+        return None
+
     atomic_values = _ATOMIC_VALUES[xsd_type.xsd_version]
     if xsd_type.name in atomic_values:
         yield atomic_values[xsd_type.name]
+    elif xsd_type.is_simple() and (ancestor := _builtin_ancestor(xsd_type)) is not None:
+        yield atomic_values[ancestor.name]
     elif xsd_type.is_simple() or (simple_type := xsd_type.simple_type) is None:
         yield from _iter_values(xsd_type.root_type, 1)
     elif simple_type.name in atomic_values:
@@ -124,6 +137,8 @@ def get_atomic_sequence(xsd_type: Optional[XsdTypeProtocol],
     def decode(s: str) -> aliases.AtomicType:
         if isinstance(value, (dt.AbstractDateTime, dt.Duration)):
             return value.fromstring(s)
+        elif isinstance(value, bool):
+            return dt.BooleanProxy(s)  # bool('0') and bool('false') are True
         elif not isinstance(value, dt.AbstractQName):
             return value.__class__(s)
         else:
